@@ -995,7 +995,8 @@ func (e *Engine) applySpecFn(env *SpecEnv, sf *SpecFunc, args []SExpr) Val {
 	if env.depth > 20 {
 		e.specFail(env, "spec function recursion too deep: "+sf.Name)
 	}
-	inner := &SpecEnv{e: e, vars: map[string]Val{}, lets: map[string]SExpr{}, st: env.st, old: env.old, pkg: sf.Pkg, pos: sf.Pos, entryVals: env.entryVals, depth: env.depth + 1}
+	inner := &SpecEnv{e: e, vars: map[string]Val{}, lets: map[string]SExpr{}, st: env.st, old: env.old, pkg: sf.Pkg, pos: sf.Pos, entryVals: env.entryVals, depth: env.depth + 1,
+		inTrigger: env.inTrigger, fc: env.fc, loop: env.loop, curBlock: env.curBlock}
 	for i, p := range sf.Params {
 		inner.vars[p.Name] = vals[i]
 	}
